@@ -161,6 +161,8 @@ class World:
         return 0
 
     def ev(self, e, side, op="", chan=0, tok=0, res="", flag=False):
+        if self.s.aborting and e != "end":
+            return  # the run is over: threads are only being unwound
         t = self.s.me()
         self.s.events.append({"ev": e, "side": side, "op": op, "chan": int(chan or 0), "tok": int(tok or 0),
                               "res": res, "thread": t.name if t else "", "flag": bool(flag)})
@@ -485,6 +487,8 @@ class World:
                     raise RuntimeError("BOOM in body")
                 elif k == "sysexit":
                     raise SystemExit(3)
+                elif k == "kbdint":
+                    raise KeyboardInterrupt()
                 elif k == "exit":
                     call("exit")
                     self.gw.exit()
